@@ -272,7 +272,13 @@ def compare_enum(w, r, enum_adt, nvariants=None, w_impls=None, r_impls=None):
     res = []
     for vidx, (tag, wt, wregion) in sorted(wmap.items()):
         if tag is None:
-            res.append(("UNSUPPORTED", vidx, "writer arm does not start with a literal tag"))
+            # siblings disagree: the other arms announce their variant with a literal tag, the reader dispatches on it, and
+            # this arm writes its payload without one
+            sib = [t for (t, _, _) in wmap.values() if t is not None]
+            if sib and wt and rmap and wt[0][0] != "X":
+                res.append(("MISMATCH", vidx, "the writer's arm for variant #%d writes %s without the tag byte that the other %d arms write first and the reader dispatches on" % (vidx, _fmt([canon(k) for k in wt]), len(sib))))
+            else:
+                res.append(("UNSUPPORTED", vidx, "writer arm does not start with a literal tag"))
             continue
         ent = rmap.get(tag)
         if ent is None:
